@@ -246,8 +246,8 @@ class SQLiteGenerator(generator.Generator):
         if isinstance(modifier, exp.Interval):
             unit = unit or modifier.unit
             modifier = modifier.this
-        modifier = modifier.name if modifier.is_string else self.sql(modifier)
-        modifier = f"'{modifier} {unit.name}'" if unit else f"'{modifier}'"
+        modifier = self.escape_str(modifier.name) if modifier.is_string else self.sql(modifier)
+        modifier = f"'{modifier} {self.escape_str(unit.name)}'" if unit else f"'{modifier}'"
         return self.func("DATE", expression.this, modifier)
 
     def cast_sql(self, expression: exp.Cast, safe_prefix: str | None = None) -> str:
